@@ -232,7 +232,9 @@ func (s SomeStorable) StoredValue(st atree.SlabStorage) (atree.Value, error) {
 	return SomeValue{v}, nil
 }
 func (s SomeStorable) ChildStorables() []atree.Storable { return []atree.Storable{s.S} }
-func (s SomeStorable) CanCopyNonRefSimple() bool        { return s.UnwrapAtreeStorable().CanCopyNonRefSimple() }
+func (s SomeStorable) CanCopyNonRefSimple() bool {
+	return s.UnwrapAtreeStorable().CanCopyNonRefSimple()
+}
 func (s SomeStorable) CopyNonRefSimple() (atree.Storable, error) {
 	c, err := s.UnwrapAtreeStorable().CopyNonRefSimple()
 	if err != nil {
